@@ -25,15 +25,28 @@ def build_harness(tier):
 
 
 def run_impl(lines):
-    return G.run_impl(lines)
+    # '202 |': the C helper probe (how a C caller builds a `&str` argument); everything else goes to the harnesses
+    rest = [l for l in lines if not l.startswith("202 ")]
+    out = iter(G.run_impl(rest)) if rest else iter([])
+    probe = None
+    res = []
+    for l in lines:
+        if l.startswith("202 "):
+            if probe is None:
+                from checks import bgcommon as B
+                probe = B.str_macro_probe()
+            res.append(probe)
+        else:
+            res.append(next(out))
+    return res
 
 
 def model_line(l):
-    return "0 |" if l.startswith(("101 ", "102 ", "104 ", "105 ", "107 ", "109 ")) else l
+    return "0 |" if l.startswith(("101 ", "102 ", "104 ", "105 ", "107 ", "109 ", "202 ")) else l
 
 
 def compare(l, impl_rows, model_rows):
-    if l.startswith(("101 ", "102 ", "104 ", "105 ", "107 ", "109 ")):
+    if l.startswith(("101 ", "102 ", "104 ", "105 ", "107 ", "109 ", "202 ")):
         return True          # behavioural direct-vs-opaque runs: decided by the implementation-side monitor alone
     return impl_rows == model_rows
 
@@ -57,7 +70,8 @@ def gen_cases(rng, tier):
     e = e + f
     d4.update(d5)
     d1.update(d2); d1.update(d4)
-    return a + b + e, d1
+    d1["c_helper_str_probe"] = 1
+    return ["202 | 0"] + a + b + e, d1
 
 
 def monitor(l, impl_rows, kv):
